@@ -241,6 +241,36 @@ func (tr *FnCtx) finish() {
 					found = true
 				}
 			}
+			if ls.Complete {
+				// syntactic: every edge that leaves the loop starts at its header (range exhausted / condition false); a
+				// break, return or goto out of the body is reported
+				goal, why := "true", "loop is left only through its header"
+				if !found {
+					goal, why = "false", fmt.Sprintf("loop %d does not exist in the function any more", k)
+				}
+				for _, li := range tr.loopOf {
+					if li.ordinal != k {
+						continue
+					}
+					for b := range li.blocks {
+						if b == li.header {
+							continue
+						}
+						if len(b.Instrs) > 0 {
+							if _, isRet := b.Instrs[len(b.Instrs)-1].(*ssa.Return); isRet {
+								goal, why = "false", fmt.Sprintf("block %d of the loop body returns from the function", b.Index)
+							}
+						}
+						for _, sc := range b.Succs {
+							if !li.blocks[sc] {
+								goal, why = "false", fmt.Sprintf("block %d of the loop body leaves the loop (break/goto) to block %d", b.Index, sc.Index)
+							}
+						}
+					}
+				}
+				tr.obls = append(tr.obls, &Obligation{Name: fmt.Sprintf("%s/loop%d/complete", tr.Short, k), Fn: tr.Short, Kind: "scan", Prefix: len(tr.cmds), Goal: goal,
+					Src: fmt.Sprintf("loop %d complete (every element is visited): %s", k, why), Ctx: tr})
+			}
 			if !found {
 				for _, cl := range ls.Invariants {
 					tr.obls = append(tr.obls, &Obligation{Name: fmt.Sprintf("%s/loop%d/inv-entry[%s]", tr.Short, k, cl.Label), Fn: tr.Short, Kind: "invariant", Prefix: len(tr.cmds), Goal: "false",
